@@ -79,7 +79,7 @@ func init() {
 					continue
 				}
 				for i, e := range tab.Entries {
-					if e.Function == fn && e.Expr == site.Expr {
+					if (e.Function == fn || bareFuncName(e.Function) == bareFuncName(fn)) && e.Expr == site.Expr {
 						used[i] = true
 						matched = true
 						s.OK(key, pos, "reviewed invariant: "+e.Invariant)
@@ -176,9 +176,18 @@ func loadReviewed(c *Ctx, name string) *reviewedTable {
 	}).(*reviewedTable)
 }
 
+// bareFuncName: the function's own name without package and receiver (a reviewed entry follows a function that changed
+// between method and plain function).
+func bareFuncName(s string) string {
+	if i := strings.LastIndexAny(s, ".)"); i >= 0 {
+		return s[i+1:]
+	}
+	return s
+}
+
 func (t *reviewedTable) find(fn, expr string) (string, bool) {
 	for _, e := range t.Entries {
-		if e.Function == fn && e.Expr == expr {
+		if (e.Function == fn || bareFuncName(e.Function) == bareFuncName(fn)) && e.Expr == expr {
 			return e.Invariant, true
 		}
 	}
